@@ -81,6 +81,12 @@ class World:
             if a0 is not None and a0[0] == 'futs':
                 return ('future', 'stream-next', a0)
         # future / stream combinators (futures-util): kept symbolic, resolved when polled
+        if name.endswith('::unfold') and name.startswith('futures') and len(args) == 2:
+            return ('futs-unfold', Cell(args[0]), args[1])
+        if name.endswith('StreamExt::fold') and len(args) == 3:
+            a0u = interp.deref_all(args[0])
+            if a0u is not None and a0u[0] == 'futs-unfold':
+                return ('future', 'unfold-fold', a0u, args[1], args[2])
         if name.endswith('FutureExt::map') and len(args) == 2:
             return ('future', 'mapped', args[0], args[1])
         if name.endswith('FutureExt::then') and len(args) == 2:
@@ -148,6 +154,19 @@ class World:
             out = self.resolve(interp, f[2])
             r = interp.call_closure(f[3], [out], 0)
             return self.resolve(interp, r) if kind == 'then' else r
+        if kind == 'unfold-fold':
+            st_cell, gen = f[2][1], f[2][2]
+            acc = f[3]
+            for _ in range(64):
+                nxt = interp.deref_all(self.resolve(interp, interp.call_closure(gen, [st_cell.v], 0)))
+                if nxt is None or nxt[0] != 'adt' or nxt[1] != 'core::option::Option':
+                    raise Unmodelled('unfold step does not yield an Option')
+                if nxt[2] == 0:
+                    return acc
+                pair = interp.deref_all(nxt[3][0].v)
+                item, st_cell.v = pair[1][0].v, pair[1][1].v
+                acc = self.resolve(interp, interp.call_closure(f[4], [acc, item], 0))
+            raise Unmodelled('unfold does not terminate on the scripted queue')
         if kind in ('stream-fold', 'stream-collect'):
             futs = f[2][1]
             acc = f[3] if kind == 'stream-fold' else None
@@ -263,7 +282,7 @@ def find_clock_actor(facts):
     for b in facts.bodies.values():
         if b.crate != 'datacake_node' or b.kind != 'coroutine' or b.d['promoted']:
             continue
-        names = [cname(t) for _b, t in b.calls() if cname(t)]
+        names = [cname(t) for g in facts.group(b) for _b, t in g.calls() if cname(t)]      # (the loop may live in a closure: unfold / fold)
         if not any(n.startswith('flume::') and last_seg(n) in ('recv_async', 'recv', 'try_recv') for n in names):
             continue
         reach = cg.reach([b], bound=4)
